@@ -7,8 +7,9 @@
 (*  R1 units (a line, or a parenthesised compound read as a whole)         *)
 (*  R2 percent expansion when a unit is read (%n, %~n, %name%, %%)          *)
 (*  R3 delayed !name! / !name:~a,b! expansion per command at execution      *)
-(*  R4 set "n=v" (empty value undefines); names fold case (not needed:      *)
-(*     the converter spells every name consistently)                        *)
+(*  R4 set "n=v" (empty value undefines); variable names and labels are     *)
+(*     case-insensitive (Fold): x and X are one variable, :f and :F one     *)
+(*     label                                                                 *)
 (*  R5 set /A: 32-bit two's complement, C precedence, unary minus           *)
 (*  R6 IF compares numerically iff both sides are unquoted integers, else   *)
 (*     as text (including the quotes)                                        *)
@@ -28,15 +29,24 @@ vars == <<ci, pc, blk, calls, env, out, status, code, steps>>
 Script == Cases[ci].script
 NLines == Len(Script)
 Empty == [x \in {} |-> ""]
-Get(e, n) == IF n \in DOMAIN e THEN e[n] ELSE ""
-Put(e, n, v) == IF v = "" THEN [m \in (DOMAIN e) \ {n} |-> e[m]] ELSE (n :> v) @@ e
+\* cmd.exe folds the case of variable names and of labels (R4, R7)
+UpperS == "ABCDEFGHIJKLMNOPQRSTUVWXYZ"
+LowerS == "abcdefghijklmnopqrstuvwxyz"
+UpperSet == {SubSeq(UpperS, i, i) : i \in 1..26}
+FoldC(c) == IF c \in UpperSet THEN LET k == CHOOSE i \in 1..26 : SubSeq(UpperS, i, i) = c IN SubSeq(LowerS, k, k) ELSE c
+RECURSIVE FoldR(_, _)
+FoldR(s, i) == IF i > Len(s) THEN "" ELSE FoldC(SubSeq(s, i, i)) \o FoldR(s, i + 1)
+Fold(s) == IF \A i \in 1..Len(s) : SubSeq(s, i, i) \notin UpperSet THEN s ELSE FoldR(s, 1)
+Get(e, n0) == LET n == Fold(n0) IN IF n \in DOMAIN e THEN e[n] ELSE ""
+Put(e, n0, v) == LET n == Fold(n0) IN IF v = "" THEN [m \in (DOMAIN e) \ {n} |-> e[m]] ELSE (n :> v) @@ e
 Args == IF calls = <<>> THEN <<>> ELSE calls[Len(calls)].args
 ArgN(n) == IF n >= 1 /\ n <= Len(Args) THEN Args[n] ELSE ""
 Unquote(s) == IF Len(s) >= 2 /\ SubSeq(s, 1, 1) = "\"" /\ SubSeq(s, Len(s), Len(s)) = "\"" THEN SubSeq(s, 2, Len(s) - 1) ELSE s
 
 IsDigitStr(s) == Len(s) > 0 /\ \A i \in 1..Len(s) : SubSeq(s, i, i) \in {"0","1","2","3","4","5","6","7","8","9"}
 IsInt(s) == IF Len(s) > 1 /\ SubSeq(s, 1, 1) = "-" THEN IsDigitStr(Tail(s)) ELSE IsDigitStr(s)
-NatOf(s) == LET m == FromDec(s).mag IN IF m = <<>> THEN 0 ELSE IF Len(m) = 1 THEN m[1] ELSE m[1] + 32768 * m[2]
+\* a text that is not a number counts as 0 (wcstol), e.g. exit /B o
+NatOf(s) == IF ~IsInt(s) THEN 0 ELSE LET m == FromDec(s).mag IN IF m = <<>> THEN 0 ELSE IF Len(m) = 1 THEN m[1] ELSE m[1] + 32768 * m[2]
 
 \* ---- expansion (percent phase, for variables, delayed phase) ---------------
 RECURSIVE Exp(_, _, _)
@@ -82,14 +92,14 @@ CondKnown(c, fv, e) ==
        IF ~c.q /\ IsInt(l) /\ IsInt(r) THEN TRUE
        ELSE c.cmp \in {"equ", "neq"} \/ (OverAscii(l) /\ OverAscii(r))
 CondVal(c, fv, e) ==
-  IF c.kind = "defined" THEN c.var \in DOMAIN e
+  IF c.kind = "defined" THEN Fold(c.var) \in DOMAIN e
   ELSE LET l == Exp(c.l, fv, e) r == Exp(c.r, fv, e) IN
        IF ~c.q /\ IsInt(l) /\ IsInt(r) THEN Rel(c.cmp, Cmp(FromDec(l), FromDec(r)))     \* numeric (R6)
        ELSE IF c.cmp = "equ" THEN l = r ELSE IF c.cmp = "neq" THEN l # r
        ELSE Rel(c.cmp, StrCmp(l, r))                                                       \* string-wise (R6)
 
 \* ---- labels (R7) ------------------------------------------------------------
-IsLabel(i, L) == Script[i].cmd.op = "label" /\ Script[i].cmd.name = L
+IsLabel(i, L) == Script[i].cmd.op = "label" /\ Fold(Script[i].cmd.name) = Fold(L)
 Find(L) == LET F == {i \in pc..NLines : IsLabel(i, L)}
                Bk == {i \in 1..(pc - 1) : IsLabel(i, L)}
                Min(S) == CHOOSE i \in S : \A j \in S : i <= j
